@@ -576,10 +576,14 @@ func (mi *muxInstance) search(req *httpprot.Request) *route {
 				continue
 			}
 
-			// The path can be put into the cache if it has no headers.
+			// The path can be put into the cache if it has no headers, and
+			// no path with headers has been skipped before: for another
+			// request with the same key, the headers could match that path.
 			if len(path.headers) == 0 {
-				r = &route{code: 0, path: path}
-				mi.putRouteToCache(req, r)
+				if !headerMismatch {
+					r = &route{code: 0, path: path}
+					mi.putRouteToCache(req, r)
+				}
 			} else if !path.matchHeaders(req) {
 				headerMismatch = true
 				continue
